@@ -985,3 +985,5 @@ M('C03', 'rf-gwauth12-walk-total-not-accumulated', AUTH, "        self.total_wei
 M('C03', 'rf-gwauth12-walk-prev-not-updated', AUTH, "        self.previous_signer = signer.signer;\n", "", 'C03.R1', base='gwauth-12')
 M('C08', 'rf-gwauth12-old-set-rotates-without-bypass', GW, "            (false, false) => Err(ContractError::NotLatestSigners),", "            (false, false) => auth::rotate_signers(&env, &signers, true),", 'C08.R3', base='gwauth-12')
 M('C09', 'rf-gwauth12-bypass-arm-enforces-wrongly', GW, "            (false, true) => auth::rotate_signers(&env, &signers, true),", "            (false, true) => auth::rotate_signers(&env, &signers, false),", 'C09.R1', base='gwauth-12')
+M('C03', 'rf-gwrotate9-duplicate-check-inverted', AUTH, "        installed_epoch(env, &new_signers_hash).is_none(),", "        installed_epoch(env, &new_signers_hash).is_some(),", 'C03.R2', base='gwrotate-9')
+M('C16', 'rf-example7-approval-ignored', 'contracts/axelar-gateway/src/executable.rs', "            return Ok(());\n        }\n\n        Err(ExecutableError::NotApproved)", "            return Ok(());\n        }\n\n        Ok(())", 'C16.R1', base='example-7')
